@@ -195,7 +195,7 @@ BIG = dict(NRoots=3, MaxActs=7, MaxScopes=4, RootOps=24, TaskOps=16, Horizon=12,
            Menu={'leave', 'instant', 'sleep', 'fset', 'await_f', 'enter', 'avail', 'status', 'open', 'nocatch', 'until_d',
                  'until_f', 'do', 'do_after', 'do_volatile', 'do_fin', 'do_grace', 'cancel', 'await_t', 'raise', 'raise_priv',
                  'put', 'get', 'qclose', 'cput', 'cget', 'cnext', 'cstop', 'cclose', 'await_time', 'await_s', 'until_time',
-                 'borrow', 'claim', 'rchange', 'levels', 'await_lvl', 'lvl_rels', 'tick'})
+                 'borrow', 'claim', 'rchange', 'levels', 'await_lvl', 'lvl_rels', 'lvl_shared', 'tick'})
 TICKS = [{'kind': 'interval', 'p': 2}, {'kind': 'interval', 'p': 0}, {'kind': 'delay', 'p': 0}, {'kind': 'delay', 'p': 2}]
 
 
@@ -224,7 +224,8 @@ def usim_program(rng):
         if r in ('inc', 'dec'):
             return {'op': r, 'p': 1, 'amt': rng.choice([0, 1, 2])}
         if r == 'await_lvl':
-            return {'op': 'await_lvl', 'p': 1, 'v': rng.choice([0, 1, 2]), 'rel': rng.choice(['ge', 'ge', 'le', 'gt', 'lt', 'eq', 'ne'])}
+            return {'op': 'await_lvl', 'p': 1, 'v': rng.choice([0, 1, 2]), 'rel': rng.choice(['ge', 'ge', 'le', 'gt', 'lt', 'eq', 'ne']),
+                    'shared': rng.random() < 0.5}
         if r == 'tick':
             i = rng.randint(1, 4)
             return dict(op='tick', i=i, **TICKS[i - 1])
